@@ -43,20 +43,101 @@ Definition mmap_flag_bits (f : N) : N :=
 
 Inductive resource := RHeap (size : N) | RMapping (size : N) | RFile.
 
-(* where a load can stop *)
-Inductive stop := SMetadata | SOpen | SAcquire | SReadFile | SDeser | SNone.
+(* where a load can stop (by an error returned with `?` or by a panic: both unwind the same way) *)
+Inductive stop := SMetadata | SOpen | SAcquire | SReadFile | SFreeze | SDeser | SNone.
 
-(* the steps of a loader up to [stop], as effects on the list of live resources; the backend is
-   released on the error path after it has been published into the MemCase (fix 05218c1) *)
-Definition load_ledger (l : loader) (n : N) (s : stop) (live : list resource) : list resource * bool :=
-  (* returns the live resources after the call and whether a MemCase (owning the backend) is returned *)
-  let backend := match l with LMem => [RHeap (capacity l n)] | LMmap | LMap => [RMapping (capacity l n)] | LFull => [] end in
-  match s with
-  | SMetadata | SOpen | SAcquire => (live, false)          (* nothing acquired yet, or acquisition failed *)
-  | SReadFile => (live, false)                             (* the file handle and the not yet published backend are dropped by `?` *)
-  | SDeser => (live, false)                                (* published backend dropped explicitly, file handle dropped *)
-  | SNone => (backend ++ live, true)                       (* the file handle is dropped; the MemCase owns the backend *)
+Definition stop_eqb (a b : stop) : bool :=
+  match a, b with
+  | SMetadata, SMetadata | SOpen, SOpen | SAcquire, SAcquire | SReadFile, SReadFile
+  | SFreeze, SFreeze | SDeser, SDeser | SNone, SNone => true
+  | _, _ => false
   end.
+
+(* The body of a loader as the sequence of its steps that matter for ownership.  A resource is
+   owned either by a local variable (released when the function returns or unwinds) or, once
+   written through the raw pointer into the MaybeUninit<MemCase>, by nobody in particular: the
+   compiler does not drop the contents of a MaybeUninit, so it is released on an early exit only if
+   a BackendGuard is armed at that point; on success it is owned by the returned case. *)
+Inductive lstep :=
+| LTry (why : stop)                       (* a fallible operation: `...?`, or one that may panic *)
+| LAcquire (r : resource) (why : stop)    (* let x = acquire()?; on success a local owns r *)
+| LPublish (r : resource)                 (* the write of the backend through the raw pointer: r leaves its local *)
+| LArm                                    (* let guard = BackendGuard(..) *)
+| LDisarm.                                (* core::mem::forget(guard) *)
+
+Record lstate := { l_locals : list resource; l_published : list resource; l_armed : bool }.
+
+Definition remove_first (r : resource) (l : list resource) : list resource :=
+  (fix go (l : list resource) : list resource :=
+     match l with
+     | [] => []
+     | x :: l' =>
+         match r, x with
+         | RFile, RFile => l'
+         | RHeap a, RHeap b | RMapping a, RMapping b => if a =? b then l' else x :: go l'
+         | _, _ => x :: go l'
+         end
+     end) l.
+
+(* [lrun steps s st]: run the steps; the first fallible step tagged [s] fails.  Returns what is
+   left behind that nobody owns (leaked), and, on success, the resources owned by the returned
+   case. *)
+Fixpoint lrun (steps : list lstep) (s : stop) (st : lstate) : list resource * option (list resource) :=
+  match steps with
+  | [] => ([], Some (l_published st))                  (* Ok(uninit.assume_init()): locals are dropped *)
+  | x :: rest =>
+      let fail := ((if l_armed st then [] else l_published st), None) in   (* unwinding drops the locals; the guard, if armed, the published backend *)
+      match x with
+      | LTry why => if stop_eqb why s then fail else lrun rest s st
+      | LAcquire r why =>
+          if stop_eqb why s then fail
+          else lrun rest s {| l_locals := r :: l_locals st; l_published := l_published st; l_armed := l_armed st |}
+      | LPublish r =>
+          lrun rest s {| l_locals := remove_first r (l_locals st); l_published := r :: l_published st; l_armed := l_armed st |}
+      | LArm => lrun rest s {| l_locals := l_locals st; l_published := l_published st; l_armed := true |}
+      | LDisarm => lrun rest s {| l_locals := l_locals st; l_published := l_published st; l_armed := false |}
+      end
+  end.
+
+(* the four loaders as coded (deser/mod.rs after the fixes 05218c1, f833d76, d735b01) *)
+Definition loader_steps (l : loader) (n : N) : list lstep :=
+  match l with
+  | LFull => [LAcquire RFile SOpen; LTry SDeser]
+  | LMem =>
+      [LTry SMetadata; LAcquire RFile SOpen; LAcquire (RHeap (capacity l n)) SAcquire; LTry SReadFile;
+       LPublish (RHeap (capacity l n)); LArm; LTry SDeser; LDisarm]
+  | LMmap =>
+      [LTry SMetadata; LAcquire RFile SOpen; LAcquire (RMapping (capacity l n)) SAcquire; LTry SReadFile;
+       LTry SFreeze;                      (* make_read_only: on failure the mapping comes back and is dropped *)
+       LPublish (RMapping (capacity l n)); LArm; LTry SDeser; LDisarm]
+  | LMap =>
+      [LTry SMetadata; LAcquire RFile SOpen; LAcquire (RMapping (capacity l n)) SAcquire;
+       LPublish (RMapping (capacity l n)); LArm; LTry SDeser; LDisarm]
+  end.
+
+(* the same without the guard: the code of the pinned tree (defect D6) *)
+Definition loader_steps_pinned (l : loader) (n : N) : list lstep :=
+  List.filter (fun x => match x with LArm | LDisarm => false | _ => true end) (loader_steps l n).
+
+Definition lstate0 : lstate := {| l_locals := []; l_published := []; l_armed := false |}.
+
+(* effect of a load on the list of live resources: (live resources after the call, whether a
+   MemCase owning its backend is returned) *)
+Definition ledger_of (steps : list lstep) (s : stop) (live : list resource) : list resource * bool :=
+  match lrun steps s lstate0 with
+  | (leaked, Some owned) => (owned ++ leaked ++ live, true)
+  | (leaked, None) => (leaked ++ live, false)
+  end.
+
+Definition load_ledger (l : loader) (n : N) (s : stop) (live : list resource) : list resource * bool :=
+  match l, s with
+  | LFull, SNone => (live, true)          (* load_full returns an owned value: no backend *)
+  | _, _ => ledger_of (loader_steps l n) s live
+  end.
+
+(* the points where a loader can stop *)
+Definition can_stop (l : loader) (s : stop) : bool :=
+  existsb (fun x => match x with LTry w | LAcquire _ w => stop_eqb w s | _ => false end) (loader_steps l 0).
 
 (* dropping the MemCase releases exactly its backend *)
 Definition drop_case (l : loader) (n : N) (live : list resource) : list resource :=
